@@ -59,6 +59,16 @@ def introspect(cq, ct):
     return {"name": "S-introspect:len/children + navigation histories", Q: ["introspect", "--cases", str(cq)], T: ["introspect", "--cases", str(ct), "--size", "24"], "seeds_t": 4}
 
 
+def iofault(cq, ct):
+    return {"name": "S-stream:faulty writers and readers, all containers", Q: ["iofault", "--cases", str(cq), "--shards", "8"],
+            T: ["iofault", "--cases", str(ct), "--size", "30", "--shards", "12"], "seeds_t": 3}
+
+
+def encfiles(cq, ct):
+    return {"name": "S-crypto:mutated encrypted files", Q: ["encfiles", "--cases", str(cq), "--shards", "8"],
+            T: ["encfiles", "--cases", str(ct), "--size", "30", "--shards", "12"], "seeds_t": 3}
+
+
 PROPS = {
     "C01": {
         "module": "Sfv.Props.C01",
@@ -84,6 +94,18 @@ PROPS = {
         "tables": ["tables_prim_widths"],
         "suites": [xver(6, 40), codec(3, 15, filt="Fam"), codec(3, 15, filt="Ver"), PACKED],
         "oracle": ["C18"],
+    },
+    "C14": {
+        "module": "Sfv.Props.C14",
+        "tables": [],
+        "suites": [encfiles(1, 5)],
+        "oracle": ["C14"],
+    },
+    "C08": {
+        "module": "Sfv.Props.C08",
+        "tables": [],
+        "suites": [iofault(1, 4)],
+        "oracle": ["C08"],
     },
     "C17": {
         "module": "Sfv.Props.C17",
